@@ -18,7 +18,7 @@
 From Avfs Require Import Base PathModel PathSpec PathProofs PathCleanProofs PathIterProofs.
 From Coq Require Import Permutation.
 From Avfs Require Import MemFS MemFile World Posix Inv WalkBridge WalkSym WalkBudget WalkReadlink WalkRel StepEq WalkInv StepInv
-  HeapEq HeapEqSnap StepRename StepRenameDir StepHist StepCwd StepMkdirAll StepHistM StepRemoveAll StepRemoveAllEx StepOpen StepHistO StepNamePath StepCwdCreate StepRemoveAllExact.
+  HeapEq HeapEqSnap StepRename StepRenameDir StepHist StepCwd StepMkdirAll StepHistM StepRemoveAll StepRemoveAllEx StepOpen StepHistO StepNamePath StepCwdCreate StepRemoveAllExact StepNamePath2 StepMkdirAllRel StepCwdMut.
 
 Theorem C01_step_stat : forall (s : fsys) (sv : sview) (cs : list str),
   step_hyps s sv -> path_ok s sv SlStat cs ->
@@ -628,3 +628,72 @@ Example C01_history_inv_r_example :
   /\ Inv (fst (impl_run StepExamples.w_tree StepRemoveAllExactExamples.hr))
   /\ links_ok (f_heap (w_fs (fst (impl_run StepExamples.w_tree StepRemoveAllExactExamples.hr)))).
 Proof. exact StepRemoveAllExactExamples.hr_inv. Qed.
+
+(* ---- the removing / moving calls and MkdirAll on relative paths ----------------------------------------------------------------------------- *)
+(* Remove, Rename (both operands; the new name does not exist; a file, a link or a directory), RemoveAll (a subtree without
+   links: equal states) on ANY resolved name path - the relative ones through [C01_rel_name_resolved]. *)
+Theorem C01_step_remove_p : forall (s : fsys) (sv : sview) (p cl : str), step_hyps s sv -> name_path p cl ->
+  resolved s sv SlLstat p -> sym_single (f_heap s) ->
+  (fst (remove s (sv_view sv) p), proj_res Linux (snd (remove s (sv_view sv) p))) = go_remove s sv p.
+Proof. exact step_remove_p. Qed.
+
+Theorem C01_step_rename_new_p : forall (s : fsys) (sv : sview) (o clo n cln : str),
+  step_hyps s sv -> name_path o clo -> name_path n cln -> forall (np : nat) (md : bool),
+  resolved s sv SlLstat o -> resolved s sv SlLstat n -> source_not_dir_p s sv o ->
+  klookup s sv false false n = WNeg np cln md ->
+  (fst (rename s (sv_view sv) o n), proj_res Linux (snd (rename s (sv_view sv) o n))) = go_rename s sv o n.
+Proof. exact step_rename_new_p. Qed.
+
+Theorem C01_step_rename_dir_new_p : forall (s : fsys) (sv : sview) (o clo n cln : str),
+  step_hyps s sv -> name_path o clo -> name_path n cln -> forall (np : nat) (md : bool),
+  Inv_heap (f_heap s) -> resolved s sv SlLstat o -> resolved s sv SlLstat n -> source_is_dir_p s sv o ->
+  klookup s sv false false n = WNeg np cln md ->
+  (fst (rename s (sv_view sv) o n), proj_res Linux (snd (rename s (sv_view sv) o n))) = go_rename s sv o n.
+Proof. exact step_rename_dir_new_p. Qed.
+
+Theorem C01_step_remove_all_exact_p : forall (s : fsys) (sv : sview) (p cl : str),
+  step_hyps s sv -> name_path p cl -> ends_with_dot p = false -> Inv_heap (f_heap s) -> sym_single (f_heap s) ->
+  resolved s sv SlLstat p -> nolink_target s sv p ->
+  (fst (remove_all s (sv_view sv) p), proj_res Linux (snd (remove_all s (sv_view sv) p))) = go_remove_all s sv p.
+Proof. exact step_remove_all_exact_p. Qed.
+
+(* MkdirAll "../"^k dn/rest from a working directory that is a directory walk [bs]: [dn] leads from the ancestor k levels up to
+   [par], the first component of [rest] is missing there.  os.MkdirAll stats and recurses on the RELATIVE prefixes. *)
+Theorem C01_step_mkdir_all_rel : forall (s : fsys) (sv : sview) (bs : list str) (k : nat) (perm : N) (dn rest : list str) (par : nat),
+  let v := sv_view sv in
+  let bs' := firstn (length bs - k) bs in
+  v_os v = Linux -> us_admin (v_user v) = true ->
+  v_cwd v = abs_path bs -> Forall good_comp bs -> rel_state sv bs s ->
+  Forall good_comp (dn ++ rest) ->
+  dir_at s v (bs' ++ dn) par ->
+  (forall c r, rest = c :: r -> alookup str_eqb c (children (f_heap s) par) = None) ->
+  has (m_mode (meta_of (f_heap s) par)) MODE_DIR = true ->
+  repeat DD k ++ dn ++ rest <> [] ->
+  length (bs' ++ dn ++ rest) < SEARCH_FUEL -> k + length (dn ++ rest) < WALK_FUEL ->
+  let p := rel_path k (dn ++ rest) in
+  (fst (mkdir_all s v p perm), proj_res Linux (snd (mkdir_all s v p perm))) = go_mkdir_all (S (length p)) s sv p perm
+  /\ go_mkdir_all (S (length p)) s sv p perm = (fst (mk_chain s v par rest perm), SOk).
+Proof. exact step_mkdir_all_rel. Qed.
+
+(* the history theorem with the working directory: [covered_e] = [covered_d] (C01_history_inv_cwd), or the absolute-path calls of
+   [covered_r] (MkdirAll, RemoveAll, OpenFile of any flag word included), or Remove / Rename / RemoveAll / MkdirAll on resolved
+   name paths ([covered_mp]) - the last two groups with "the working-directory string still denotes the node" after the call *)
+Theorem C01_history_inv_cwd_all : forall (vi : nat) (cs : list call) (w : world) (sw : sworld),
+  Inv w -> absc w vi sw (cwd_of w vi) -> us_admin (v_user (sv_view (sw_sv sw))) = true -> links_ok (f_heap (w_fs w)) ->
+  call_ok_run_e vi w sw cs ->
+  Forall2 obs_sim (snd (impl_run w cs)) (snd (spec_run sw cs))
+  /\ absc (fst (impl_run w cs)) vi (fst (spec_run sw cs)) (cwd_of (fst (impl_run w cs)) vi)
+  /\ Inv (fst (impl_run w cs)) /\ links_ok (f_heap (w_fs (fst (impl_run w cs)))).
+Proof. exact history_inv_e. Qed.
+
+(* from "/d/e": MkdirAll "../x/missing"; WriteFile "../x/f"; Rename "../x/f" "../x/missing/g"; Rename (directory) "../x/missing" "m2";
+   RemoveAll "m2"; Remove "../x"; Getwd *)
+Example C01_history_inv_cwd_all_example :
+  (Forall2 obs_sim (snd (impl_run StepExamples.w_tree StepCwdMutExamples.he)) (snd (spec_run StepExamples.sw_tree StepCwdMutExamples.he))
+   /\ absc (fst (impl_run StepExamples.w_tree StepCwdMutExamples.he)) 0 (fst (spec_run StepExamples.sw_tree StepCwdMutExamples.he))
+        (cwd_of (fst (impl_run StepExamples.w_tree StepCwdMutExamples.he)) 0)
+   /\ Inv (fst (impl_run StepExamples.w_tree StepCwdMutExamples.he))
+   /\ links_ok (f_heap (w_fs (fst (impl_run StepExamples.w_tree StepCwdMutExamples.he)))))
+  /\ snd (spec_run StepExamples.sw_tree StepCwdMutExamples.he)
+     = [SOk; SOk; SOk; SOk; SOk; SOk; SOk; SStr (abs_path [WalkSymExamples.s_d; WalkSymExamples.s_e])].
+Proof. split; [exact StepCwdMutExamples.he_inv|exact StepCwdMutExamples.he_results]. Qed.
